@@ -4,7 +4,7 @@
 From Coq Require Import List NArith Bool Arith Sorted.
 From Coq Require Import Strings.Byte.
 Require Import BS.Bytes BS.Common BS.Api BS.Layout BS.Format BS.FormatFacts BS.Spec BS.SpecStep.
-Require Import BS.FS BS.FSFacts BS.Meta BS.MetaFacts BS.Header BS.Reader BS.ReaderFacts BS.Index BS.Data BS.DataFacts BS.Seek BS.Series BS.SeriesFacts.
+Require Import BS.FS BS.FSFacts BS.Meta BS.MetaFacts BS.Header BS.Reader BS.ReaderFacts BS.Index BS.Data BS.DataFacts BS.Seek BS.Series BS.SeriesFacts BS.CacheFacts BS.AppendOnlyFacts.
 Import ListNotations.
 
 (* (I) an accepted append only adds bytes at the end of the data and the index file and touches no
@@ -21,3 +21,15 @@ Print Assumptions C16_append_only_adds_bytes.
    not proved yet (in the model reads thread the file system through read-only primitives; the
    statement needs one lemma per reading operation). Covered by the judge: every file is compared
    with its expected content after every operation. *)
+
+(* (I) with any number of cache levels: an accepted append leaves every file of the series - data and index of the source
+   and of every level - with its previous content as a byte prefix (`grows`), and touches no file outside the series *)
+Theorem C16_append_only_with_caches : forall p fs s hdr ihdr l cs ts pay,
+  RepS fs s p hdr ihdr l cs -> accepts p l ts pay = true ->
+  exists fs' s', push_line s ts pay fs = (fs', Ok s')
+    /\ Forall (grows fs fs') (all_files s)
+    /\ (forall g, ~ In g (all_files s) -> fs_get fs' g = fs_get fs g).
+Proof. exact push_line_append_only. Qed.
+Print Assumptions C16_append_only_with_caches.
+(* reads, counts and accessors return the file system they were given (the `fs` in `= (fs, ...)` of C02, C10, C12, C13, C14):
+   they modify no file. *)
